@@ -56,6 +56,9 @@ def cases(tier, seed):
         out.append({"name": "retain.sweep/%s/cancel|workers" % t, "kind": "retsweep", "layer": t, "vop": "cancel", "cap": None})
     for t in ("retry", "timeout", "poll", "throttle"):
         out.append({"name": "exit.registry/%s" % t, "kind": "registry", "layer": t, "cap": None})
+    for comb in ("f_zip", "f_sequence", "f_and", "f_or", "f_map", "f_traverse", "f_apply"):
+        for order in ("session_last", "session_first"):
+            out.append({"name": "retain.combinator/%s/%s" % (comb, order), "kind": "retcomb", "comb": comb, "order": order})
     for st in (["map", "retry"], ["retry", "throttle"], ["poll", "timeout"], ["throttle", "poll", "map"]):
         out.append({"name": "retain.history/%s" % ">".join(st), "kind": "retain", "layer": ">".join(st)})
     return out
@@ -90,6 +93,17 @@ class Obj(object):
 
     def __repr__(self):
         return "<Obj %s>" % self.tag
+
+
+class Named(object):
+    """weak-referenceable callable"""
+
+    def __init__(self, tag, fn):
+        self.tag = tag
+        self.fn = fn
+
+    def __call__(self, *a, **kw):
+        return self.fn(*a, **kw)
 
 
 class Job(object):
@@ -641,6 +655,74 @@ class RegistryScenario(object):
             res.key("registry", self.case["layer"], info.get("site"))
 
 
+def run_retcomb(case, res):
+    """A plain future that the user keeps for long (a session, a cached value) is combined, while still pending, with
+    short-lived futures again and again; then everything finishes and the outputs and results are dropped while the
+    long-lived input is kept: nothing of them stays reachable from it."""
+    F = instr.ME.futures
+    comb = case["comb"]
+    begin("vt")
+    ctx = Ctx()
+    try:
+        import concurrent.futures as cf
+        session = cf.Future()
+        wr = []
+        others = []
+        for i in range(5):
+            other = cf.Future()
+            payload = Obj("payload%d" % i)
+            fn = None
+            if comb == "f_zip":
+                out = F.f_zip(session, other)
+            elif comb == "f_sequence":
+                out = F.f_sequence([other, session])
+            elif comb == "f_traverse":
+                out = F.f_traverse(lambda x: x, [session, other])
+            elif comb == "f_and":
+                out = F.f_and(other, session)
+            elif comb == "f_or":
+                out = F.f_or(session, other)
+            elif comb == "f_apply":
+                fn = Named("fn%d" % i, lambda a, b=None: (a, b))
+                out = F.f_apply(F.f_return(fn), session, b=other)
+            else:
+                fn = Named("fn%d" % i, lambda v, _p=payload: _p)
+                out = F.f_map(session, fn)
+            others.append((other, payload if comb != "f_or" else 0))
+            wr.append(("output#%d" % i, weakref.ref(out)))
+            wr.append(("payload#%d" % i, weakref.ref(payload)))
+            if fn is not None:
+                wr.append(("function#%d" % i, weakref.ref(fn)))
+            del out, other, payload, fn
+        if case.get("order") == "session_first":
+            session.set_result(Obj("session value"))
+        for other, value in others:
+            if not other.done():   # (f_or cancels the losers)
+                other.set_result(value)
+        if case.get("order") != "session_first":
+            session.set_result(Obj("session value"))
+        del others, other, value
+        gc.collect()
+        instr.advance(0.05)
+        gc.collect()
+        res.execs += 1
+        check_common(res)
+        if not session.done():
+            res.inconclusive("retcomb: the long-lived input did not finish")
+        for what, r in wr:
+            o = r()
+            if o is not None:
+                res.violation("retained/combinator/%s/%s" % (comb, what.split("#")[0]),
+                              "%s over a long-lived plain future: everything finished, the user kept only that input, and %s is still "
+                              "referenced; held by %s" % (comb, what, referrer_summary(o)))
+                del o
+                break
+        res.key("retcomb", comb, case.get("order"))
+        res.count("weakref_samples", len(wr))
+    finally:
+        end(ctx)
+
+
 def run_keepalive(case, res):
     layer = case["layer"]
     for how in ("value", "exc"):
@@ -760,6 +842,8 @@ def run_case(case, res):
     elif k == "retsweep":
         rng = random.Random("c12r/%s/%s" % (case["seed"], case["name"]))
         Sweep(RetSweepScenario(case), res, "vt", case["name"]).run(case["cap"], rng, per_site=2)
+    elif k == "retcomb":
+        run_retcomb(case, res)
     elif k == "registry":
         rng = random.Random("c12g/%s/%s" % (case["seed"], case["name"]))
         Sweep(RegistryScenario(case), res, "vt", case["name"], gran="instr").run(case["cap"], rng, per_site=2)
